@@ -12,6 +12,7 @@ import io
 import json
 import os
 import random
+import shutil
 import subprocess
 import tarfile
 import typing as T
@@ -288,6 +289,8 @@ def part2(chk: Check) -> None:
     quick = chk.tier == 'quick'
     if not SITE.joinpath('sitecustomize.py').is_file():
         raise MachineryError('harness/c10_site/sitecustomize.py is missing')
+    if not (shutil.which('patch') or shutil.which('git')):
+        raise MachineryError('C10: neither patch nor git is available; diff_files scenarios cannot run')
     res = run_tlc(SPECS / 'deps', 'WrapFetch_MC', cfg_text=WF_CFG % ('families' if quick else 'all'),
                   collect=['wrap_scenarios.json'], timeout=3600, allow_violation=False)
     chk.add_tlc(f"WrapFetch_MC[{'families' if quick else 'all'}]", res)
